@@ -841,6 +841,37 @@ def untracked_base_power(tree, form=None, env=None):
     return any(untracked_base_power(a, form, env) for a in tree if isinstance(a, list))
 
 
+def direct_probe(tree):
+    """trees made of the point itself, + - *, +/ */ and imported backend math functions applied
+    DIRECTLY to the point (sin(x), +/exp(x), sqrt(x)*log(x)): on the torch backend p∇f hands these
+    functions the float64 probe array as it is, so numeric differentiation is float64-accurate —
+    the float32 finding does not cover this class"""
+    def ok(n):
+        k = n[0]
+        if k == "par":
+            return True
+        if k in ("add", "sub", "mul"):
+            return ok(n[1]) and ok(n[2])
+        if k in ("sum", "prod"):
+            return ok(n[1])
+        if k == "call" and n[1] in TRANS_FNS:
+            return n[2][0] == "par"
+        return False
+    return isinstance(tree, list) and ok(tree) and any(o.startswith("call:") for o in ops_in(tree))
+
+
+def gen_probe(rng, depth, vector):
+    """the direct-probe class, scalar-valued (a vector point is reduced with +/ or */)"""
+    def g(d):
+        if d <= 0 or rng.random() < 0.35:
+            return rng.choice([["call", rng.choice(TRANS_FNS), ["par", "x"]]] * 3 + [["par", "x"]])
+        return [rng.choice(["add", "sub", "mul", "mul"]), g(d - 1), g(d - 1)]
+    t = g(depth)
+    if not any(o.startswith("call:") for o in ops_in(t)):
+        t = ["mul", t, ["call", rng.choice(TRANS_FNS), ["par", "x"]]]
+    return [rng.choice(["sum", "sum", "prod"]), t] if vector else t
+
+
 def value_program(body, env):
     """plain evaluation of the function at the point (precondition of every gradient form)"""
     names = list(env.params)
@@ -848,6 +879,17 @@ def value_program(body, env):
         return f"x::{point_lit(env.params['x'])};f::{{{body}}};f(x)"
     binds = ";".join(f"{k}::{point_lit(env.params[k])}" for k in names)
     return f"{binds};loss::{{{body}}};loss()"
+
+
+def bind_lit(v, as_int):
+    """literal a named parameter is bound to: floats, or (as_int) integer atoms / integer vectors
+    for whole values — `w::2` — or ("sum") a computed numpy integer — `w::+/[1 1]`"""
+    if not as_int:
+        return point_lit(v)
+    if as_int == "sum" and not isinstance(v, list) and Fr(v).denominator == 1:
+        n = Fr(v).numerator
+        return f"+/[1 {n - 1}]"
+    return point_lit(v, True)
 
 
 def program(form, body, env, as_int=False, tree=None):
@@ -873,7 +915,7 @@ def program(form, body, env, as_int=False, tree=None):
             "sysjac": f".jacobian({{{body}}};{p})",
             "sysjac-named": f"g::{{{body}}};.jacobian(g;{p})",
         }[form]
-    binds = ";".join(f"{k}::{point_lit(env.params[k])}" for k in names)
+    binds = ";".join(f"{k}::{bind_lit(env.params[k], as_int)}" for k in names)
     if form == "multi-ag":
         return f"{binds};loss::{{{body}}};loss:>[{' '.join(names)}]"
     if form == "multi-partial":
@@ -918,10 +960,15 @@ def gen_point(rng, kind):
 def gen_case(rng, quick):
     """one (tree, parameters, family) triple inside the smooth domain"""
     for _ in range(40):
-        fam = rng.choice(["scalar", "vector", "vector", "matrix", "jac", "jac", "multi", "multi", "multi-jac"])
+        fam = rng.choice(["scalar", "vector", "vector", "matrix", "jac", "jac", "multi", "multi", "multi-jac", "probe"])
         allow_trans = rng.random() < 0.3
         depth = rng.choice([1, 2, 2, 3] if quick else [1, 2, 2, 3, 3])
-        if fam == "scalar":
+        if fam == "probe":
+            vector = rng.random() < 0.6
+            params = {"x": gen_point(rng, "V" if vector else "S")}
+            env = Env(params)
+            tree = gen_probe(rng, rng.choice([0, 1, 1, 2]), vector)
+        elif fam == "scalar":
             params = {"x": gen_point(rng, "S")}
             env = Env(params)
             tree = gen_s(rng, env, depth, allow_trans)
@@ -1024,7 +1071,7 @@ def judge(got, orc, backend, numeric, nops):
     return kind, J, tol, (int(i), int(j))
 
 
-def run_case(ctx, model, real, fam, tree, params, forms=None, backends=None, quick=True):
+def run_case(ctx, model, real, fam, tree, params, forms=None, backends=None, quick=True, as_int=None):
     env = Env(params)
     oenv = oracle_env(env)
     otree = strip_flat(tree)
@@ -1083,7 +1130,9 @@ def run_case(ctx, model, real, fam, tree, params, forms=None, backends=None, qui
             return
 
     if forms is None:
-        if fam in ("scalar", "vector"):
+        if fam == "probe":
+            forms = ["nabla", "nabla-sym"] + ctx.rng.sample(["ag", "ag-named", "ag-sym", "nabla-monad"], 1 if quick else 4)
+        elif fam in ("scalar", "vector"):
             forms = ctx.rng.sample(SINGLE_FORMS, 3 if quick else 6)
         elif fam == "matrix":
             forms = ctx.rng.sample(["ag", "ag-sym", "nabla", "nabla-sym", "nabla-monad"], 2 if quick else 5)
@@ -1123,7 +1172,14 @@ def run_case(ctx, model, real, fam, tree, params, forms=None, backends=None, qui
     backends = usable
     unused = [nm for nm in env.params if not depends(tree, nm)]
 
-    as_int = ctx.rng.random() < 0.2
+    if as_int is None:
+        r = ctx.rng.random()
+        if fam in ("multi", "multi-jac"):
+            # integer atoms (w::2) and computed numpy integers (w::+/[1 1]) as parameter bindings
+            as_int = "lit" if r < 0.3 else ("sum" if r < 0.4 else False)
+        else:
+            as_int = r < 0.2
+    base["as_int"] = as_int
     results = {}
     for form in forms:
         prog = program(form, body, env, as_int, tree)
@@ -1211,6 +1267,8 @@ def run_case(ctx, model, real, fam, tree, params, forms=None, backends=None, qui
             kind, J, tol, where = judge(got, orc, backend, numeric, nops)
             if kind != "ok":
                 i, j = where
+                if kind == "float32-evaluation" and direct_probe(tree):
+                    kind = "direct-probe:wrong-value"       # float64-accurate on the torch backend: not the finding
                 ctx.oracle_fail(f"{site}:{kind}", case,
                                 dict(exact=J.tolist(), tolerance=float(tol[i, j]), component=[int(i), int(j)]),
                                 got.tolist(),
@@ -1487,6 +1545,16 @@ FIXED = [
      {"w": [Fr(1), Fr(2)], "b": Fr(1, 2), "c": [Fr(2), Fr(1), Fr(3)]}),
     ("multi-jac", ["join", [["mul", ["par", "w"], ["par", "b"]], ["sum", ["par", "w"]]]],
      {"w": [Fr(1), Fr(2)], "b": Fr(1, 2)}),
+    # imported backend math functions applied directly to the point (numeric ∇ on torch is float64 here)
+    ("probe", ["call", "sin", ["par", "x"]], {"x": Fr(1)}),
+    ("probe", ["sum", ["call", "exp", ["par", "x"]]], {"x": [Fr(1), Fr(2), Fr(-1, 2)]}),
+    ("probe", ["mul", ["call", "sqrt", ["par", "x"]], ["call", "log", ["par", "x"]]], {"x": Fr(2)}),
+    ("probe", ["sum", ["mul", ["par", "x"], ["call", "cos", ["par", "x"]]]], {"x": [Fr(3, 2), Fr(3)]}),
+    # integer atoms as parameter bindings in loss:>[w b]
+    ("multi", ["add", ["pow", ["par", "a"], 2], ["pow", ["par", "b"], 2]], {"a": Fr(2), "b": Fr(3)}, "lit"),
+    ("multi", ["add", ["pow", ["par", "a"], 2], ["mul", ["par", "b"], ["par", "a"]]], {"a": Fr(2), "b": Fr(-3)}, "sum"),
+    ("multi", ["mul", ["sum", ["mul", ["par", "w"], ["par", "w"]]], ["par", "b"]], {"w": [Fr(1), Fr(2)], "b": Fr(2)}, "lit"),
+    ("multi-jac", ["join", [["mul", ["par", "w"], ["par", "b"]], ["pow", ["par", "b"], 2]]], {"w": [Fr(1), Fr(2)], "b": Fr(3)}, "lit"),
     # powers with a non-constant exponent: d(u^v) = v*u^(v-1)*du + u^v*ln(u)*dv
     ("scalar", ["gpow", ["par", "x"], ["par", "x"]], {"x": Fr(2)}),
     ("scalar", ["gpow", ["add", ["par", "x"], ["const", "1/1"]], ["mul", ["par", "x"], ["const", "1/2"]]], {"x": Fr(2)}),
@@ -1545,8 +1613,9 @@ def run(ctx):
     ]
     try:
         ctx.extra["torch_backend"] = real.have_torch()
-        for fam, tree, params in FIXED:
-            run_case(ctx, model, real, fam, tree, params, quick=False)
+        for fx in FIXED:
+            fam, tree, params = fx[:3]
+            run_case(ctx, model, real, fam, tree, params, quick=False, as_int=fx[3] if len(fx) > 3 else None)
         cdir = common.CORPUS / "C06"
         if cdir.exists():
             for p in sorted(cdir.glob("*.json")):
@@ -1576,7 +1645,7 @@ def replay(ctx, case):
             forms = [c["form"]] if "form" in c else None
             backends = [c["backend"]] if "backend" in c else None
             run_case(ctx, model, real, c["family"], c["tree"], params_from_json(c["params"]),
-                     forms=forms, backends=backends, quick=False)
+                     forms=forms, backends=backends, quick=False, as_int=c.get("as_int"))
         else:
             run_bookkeeping(ctx, drv, 200)
     finally:
